@@ -471,6 +471,49 @@ func c18Gen(c *Ctx) {
 	})
 	c.SetExhaustive()
 	c.Note(fmt.Sprintf("GetMaximalCliques: every labelled simple graph on <= %d vertices (%d graphs), each %d times (fresh map orders)", NV, len(gs), reps))
+	// graphs beyond the small scope (17 vertices, sparse: a ring with a few chords, or a few dense spots), few of them:
+	// the specification enumerates all 2^n vertex sets
+	c.Each(c.N(10, 120), func(i int, t *T) {
+		r := t.R
+		n := 17
+		in := []int64{3, int64(n)}
+		adj := map[[2]int]bool{}
+		for v := 0; v < n; v++ {
+			a, b := v, (v+1)%n
+			if a > b {
+				a, b = b, a
+			}
+			adj[[2]int{a, b}] = true
+		}
+		for k, m := 0, r.Intn(12); k < m; k++ {
+			a, b := r.Intn(n), r.Intn(n)
+			if a > b {
+				a, b = b, a
+			}
+			if a != b {
+				adj[[2]int{a, b}] = true
+			}
+		}
+		if i%4 == 3 { // drop a few ring edges
+			for k := 0; k < 3; k++ {
+				a := r.Intn(n - 1)
+				delete(adj, [2]int{a, a + 1})
+			}
+		}
+		ne := 0
+		for a := 0; a < n; a++ { // the same edge order as the other families: pairs (a, b), a < b, in lexicographic order
+			for b := a + 1; b < n; b++ {
+				if adj[[2]int{a, b}] {
+					in = append(in, 1)
+					ne++
+				} else {
+					in = append(in, 0)
+				}
+			}
+		}
+		t.Try("cliques/17-vertices", in, ne > 0)
+		t.C.Count("clique-n", fmt.Sprint(n))
+	})
 	c.Each(c.N(3000, 60000), func(i int, t *T) {
 		r := t.R
 		n := NV + 1 + r.Intn(3)
